@@ -94,12 +94,12 @@ def crash_run(ctx, prog, kind, k):
     import shutil
     shutil.copyfile(txnlib.template_db(ctx.scratch), path)
     sink_path = path + '.events'
+    sink = open(sink_path, 'w')
+    env = txnlib.Env(ctx.scratch, sink=sink, path=path)     # bound in the parent: the child only runs the session
     pid = os.fork()
     if pid == 0:
         code = 3
         try:
-            sink = open(sink_path, 'w')
-            env = txnlib.Env(ctx.scratch, sink=sink, path=path)
             env.rec.armed = True
             env.rec.fault_mode = 'crash'
             env.rec.fault_at = k
@@ -117,6 +117,8 @@ def crash_run(ctx, prog, kind, k):
             os._exit(code)
     _, status = os.waitpid(pid, 0)
     code = os.waitstatus_to_exitcode(status)
+    sink.close()
+    env.close(remove=False)
     evs = []
     with open(sink_path) as f:
         for line in f:
@@ -136,8 +138,8 @@ def run(ctx):
     # ---- 1. TLC on the specification ------------------------------------------------------------------------------------
     inv = txnlib.ALL_INV
     if quick:
-        cfgs = [('crash', txnlib.mc_cfg(inv, txnlib.ALL_PROP, NActors=2, AllowCrash='TRUE', Forms='{"cm"}', ExcKinds='{"other"}',
-                                        MaxNest=1, MaxRetry=0))]
+        cfgs = [('crash', txnlib.mc_cfg(inv, txnlib.ALL_PROP, NActors=2, AllowCrash='TRUE', Forms='{"cm"}', Kinds='{"opt","imm"}',
+                                        ExcKinds='{"other"}', MaxNest=1, MaxRetry=0))]
     else:
         cfgs = [('crash', txnlib.mc_cfg(inv, txnlib.ALL_PROP, NActors=2, AllowCrash='TRUE', Forms='{"cm","dec"}',
                                         ExcKinds='{"other"}', MaxNest=1)),
